@@ -16,7 +16,7 @@ from .refs import NEEDS_TB, OUT_OF_DOMAIN
 
 class Verdict:
     __slots__ = ("status", "msg", "round", "trace", "ref_states", "transitions", "end_kinds",
-                 "exhaust", "steps_taken")
+                 "exhaust", "steps_taken", "ood_reason", "ignored_tie")
 
     def __init__(self):
         self.status = "ok"  # ok | violation | out_of_domain
@@ -28,6 +28,8 @@ class Verdict:
         self.end_kinds = set()
         self.exhaust = []
         self.steps_taken = []  # per round: kind of the matched step(s)
+        self.ood_reason = None
+        self.ignored_tie = False  # the run went on where the reference needs a tiebreak
 
 
 def _nonempty(groups):
@@ -85,10 +87,12 @@ def follow(states, exc, case, cfg):
             for step in refs.legal_steps(st, cfg):
                 if step.kind == OUT_OF_DOMAIN:
                     v.status = "out_of_domain"
+                    v.ood_reason = step.reason
                     v.round = r
                     v.trace = tuple(trace)
                     return v
                 if step.kind == NEEDS_TB:
+                    v.ignored_tie = True
                     legal_desc.append(f"tie {sorted(step.tie)} needs a tiebreak -> ValueError")
                     continue
                 legal_desc.append(
@@ -118,6 +122,8 @@ def follow(states, exc, case, cfg):
                         nxt[refs.state_key(succ)] = succ
                         kinds.add(step.kind)
                         v.transitions += 1
+        if nxt:
+            v.ignored_tie = False
         if not nxt:
             return fail(
                 r,
@@ -142,6 +148,7 @@ def follow(states, exc, case, cfg):
                     pend += [s.kind for s in refs.legal_steps(st, cfg)]
             if OUT_OF_DOMAIN in pend:
                 v.status = "out_of_domain"
+                v.ood_reason = "pending"
                 return v
             return fail(len(states), f"count stopped with seats unfilled; reference continues with {pend}")
         v.end_kinds = {"END"}
@@ -154,6 +161,8 @@ def follow(states, exc, case, cfg):
         else:
             for s in refs.legal_steps(st, cfg):
                 pend.add(s.kind)
+                if s.kind == OUT_OF_DOMAIN:
+                    v.ood_reason = s.reason
     v.end_kinds = pend
     if OUT_OF_DOMAIN in pend:
         v.status = "out_of_domain"
